@@ -11,12 +11,14 @@ CONFIGS = [
     ("i256_ea_inode", ["-t", "ext4", "-b", "1024", "-I", "256", "-O", "ea_inode"]),
     ("i1024_2k_nocsum", ["-t", "ext4", "-b", "2048", "-I", "1024", "-O", "^metadata_csum"]),
     ("ext2_i256", ["-t", "ext2", "-b", "1024", "-I", "256"]),
+    ("i256_4k_ea_inode", ["-t", "ext4", "-b", "4096", "-I", "256", "-O", "ea_inode"]),
+    ("i128_4k_ea_inode", ["-t", "ext4", "-b", "4096", "-I", "128", "-O", "ea_inode,^metadata_csum"]),
 ]
 PREFIXES = ["user.", "user.", "trusted.", "security.", "system.foo_"]
 
 
 def setup(src):
-    e2v.build_driver("xattr", ["theories/Xattr/XattrPack.vo"], ["xattr_model"])
+    e2v.build_driver("xattr", ["theories/Xattr/XattrPack.vo", "theories/Xattr/XattrSort.vo"], ["xattr_model"])
 
 
 def layout(fs, ino):
@@ -46,6 +48,24 @@ def layout(fs, ino):
     return out
 
 
+def block_keys(fs, ino):
+    """(name index, name bytes) of the entries of the attribute block, in on-disk order, as model keys"""
+    inode = fs.inode(ino)
+    out = []
+    if inode["file_acl"]:
+        blk = fs.block(inode["file_acl"])
+        o = 32
+        while o + 4 <= fs.bs and struct.unpack_from("<I", blk, o)[0]:
+            nl, idx = struct.unpack_from("<BB", blk, o)
+            out.append("%d:%s" % (idx, blk[o + 16:o + 16 + nl].hex()))
+            o += (16 + nl + 3) & ~3
+    return out
+
+
+def model(mexe, line):
+    return subprocess.run([mexe], input=(line + "\n").encode(), stdout=subprocess.PIPE, timeout=60).stdout.decode().strip()
+
+
 def one_case(src, mexe, idx, seed, tier):
     r = e2v.rng(seed, "c15", idx)
     name, opts = CONFIGS[idx % len(CONFIGS)]
@@ -65,13 +85,19 @@ def one_case(src, mexe, idx, seed, tier):
     ops, problems = [], []
     vfile = os.path.join(WORK, "val_%d" % idx)
     names_pool = [r.choice(PREFIXES) + r.choice(["a", "bb", "ccc", "dddd", "k" * r.choice([5, 17, 40, 200]), "n%d" % i]) for i in range(10)]
+    # names of one length in one namespace: their order in the block is decided by the bytes alone
+    names_pool += ["user." + x for x in r.sample(["aaa", "ccc", "bbb", "zzz", "mmm", "aab", "Azz", "a~a"], 5)]
     corr_rows, corr_bad = 0, []
+    order_rows, order_bad = 0, []
+    bkeys = {t: [] for t in targets}
     nops = r.randint(8, 30 if tier == "quick" else 60)
     for k in range(nops):
         t = r.choice(targets)
         kind = r.random()
         nm = r.choice(names_pool)
         before = dict(spec[t])
+        if kind < 0.62 and before and r.random() < 0.45:
+            nm = r.choice(sorted(before))      # replace an existing attribute by one of another size class
         if kind < 0.62:
             ln = r.choice([0, 1, 3, 4, 5, 16, 60, 61, 100, isz - 128 - 32 - 40, isz - 128 - 32 - 20, 300, bs // 2, bs - 80, bs - 52, bs - 36, bs + 100, 5000, 70000]) if r.random() < 0.8 else r.randint(0, 400)
             ln = min(max(0, ln), bs)          # debugfs ea_set -f reads at most one block of the value file
@@ -135,7 +161,24 @@ def one_case(src, mexe, idx, seed, tier):
             if not m or m.group(1) != "1" or [(p[0], p[1]) for p in pred] != [(o_[0], o_[1]) for o_ in obs]:
                 corr_bad.append({"area": area, "storage": size, "entries(name len,value len,ea_inode)": [e[2:] for e in ents],
                                  "observed(entry off,value off)": [(o_[0], o_[1]) for o_ in obs], "model": mo})
-        if problems:
+        # order of the block entries vs the sorted-insertion model
+        keys = block_keys(fs, ino)
+        order_rows += 1
+        if keys:
+            if model(mexe, "S " + " ".join(keys)) != "S1":
+                order_bad.append({"op": ops[-1], "block entries (index:name hex) on disk": keys, "model": "sortedb = false"})
+            else:
+                lost = [k_ for k_ in keys if model(mexe, "L %s %s" % (k_, " ".join(keys))) != "L1"]
+                if lost:
+                    order_bad.append({"op": ops[-1], "block entries": keys, "not found by the sorted lookup": lost})
+            new = [k_ for k_ in keys if k_ not in bkeys[t]]
+            if len(new) == 1 and len(keys) == len(bkeys[t]) + 1:
+                pred = model(mexe, "I %s %s" % (new[0], " ".join(bkeys[t]))).split()
+                order_rows += 1
+                if pred != keys:
+                    order_bad.append({"op": ops[-1], "block entries before": bkeys[t], "after": keys, "model insert_key": pred})
+        bkeys[t] = keys
+        if problems or order_bad:
             break
     recipe = {"config": name, "mke2fs": opts, "ops": ops, "case_index": idx}
     rc, out = e2v.sh([T("e2fsck/e2fsck"), "-fn", img], env=env, timeout=300)
@@ -147,7 +190,7 @@ def one_case(src, mexe, idx, seed, tier):
     for p in (img, vfile):
         if os.path.exists(p):
             os.unlink(p)
-    return recipe, problems, {"rows": corr_rows, "corr_bad": corr_bad, "nops": len(ops)}
+    return recipe, problems, {"rows": corr_rows, "corr_bad": corr_bad, "nops": len(ops), "order_rows": order_rows, "order_bad": order_bad}
 
 
 def run(res, replay=None):
@@ -156,19 +199,19 @@ def run(res, replay=None):
     src = e2v.ensure_build()
     pr = e2v.coq_property("C15")
     res.add_proof(pr)
-    mexe = e2v.build_driver("xattr", ["theories/Xattr/XattrPack.vo"], ["xattr_model"])
+    mexe = e2v.build_driver("xattr", ["theories/Xattr/XattrPack.vo", "theories/Xattr/XattrSort.vo"], ["xattr_model"])
     res.cov["trusted_base"] = e2v.TRUSTED_COMMON + [
         "lib/extfmt.py xattrs(): the check's own decoder of in-inode and block attribute storage (and EA inodes)",
         "debugfs ea_set/ea_rm/ea_get are the front end to ext2fs_xattr_set/remove/get; the reference is a Python dict per file",
     ]
     res.cov["partial"] = ["proved: the packing of an attribute list into a storage area (no write outside it, entries never meet values, values pairwise disjoint) whenever the library's space estimate says it fits; the array update logic, hashing, sorting, block sharing/refcounts and EA-inode bookkeeping are validated per operation against the dict reference and by e2fsck, not modelled",
                           "POSIX-ACL value conversion and kernel-written layouts are outside the campaign"]
-    n = 12 if tier == "quick" else 1500
+    n = 16 if tier == "quick" else 1600
     idxs = [json.load(open(replay))["recipe"]["case_index"]] if replay else list(range(n))
     with concurrent.futures.ThreadPoolExecutor(12) as ex:
         outs = list(ex.map(lambda i: one_case(src, mexe, i, seed, tier), idxs))
-    bad, cbad = [], []
-    rows = ops = 0
+    bad, cbad, obad = [], [], []
+    rows = ops = orows = 0
     for recipe, problems, st in outs:
         res.case(json.dumps(recipe), st.get("nops", 0) >= 3)
         rows += st.get("rows", 0)
@@ -179,12 +222,19 @@ def run(res, replay=None):
             bad.append((recipe, problems))
         for c in st.get("corr_bad", [])[:1]:
             cbad.append((recipe, c))
+        orows += st.get("order_rows", 0)
+        for c in st.get("order_bad", [])[:1]:
+            obad.append((recipe, c))
     res.cov["correspondence"] = {"storage_areas_compared": rows, "mismatches": len(cbad),
                                  "compared": "entry offsets and value offsets of every attribute in the inode body and in the attribute block after each operation vs the extracted place (and fits must hold)"}
     res.cov["oracle"] = {"evaluations": ops, "failures": len(bad),
                          "statement": "after every ea_set/ea_rm the decoded name->value map of the file equals the reference dict (or is unchanged when the tool reports an error), other files keep theirs, ea_get returns the stored bytes, e2fsck -fn exit 0 at the end"}
-    res.cov["rule"] = "6 configurations (inode size 128..1024, block 1k..4k, ea_inode, with/without checksums); value lengths at the in-inode and block capacity boundaries, 0, >block, 70000; name lengths 1..200; prefixes user/trusted/security/system; non-trivial = at least 3 operations"
+    res.cov["rule"] = "8 configurations (inode size 128..1024, block 1k..4k, ea_inode, with/without checksums); value lengths at the in-inode and block capacity boundaries, 0, >block, 70000; name lengths 1..200; prefixes user/trusted/security/system; non-trivial = at least 3 operations"
+    res.cov["correspondence"]["block_order_rows"] = orows
+    res.cov["correspondence"]["block_order_mismatches"] = len(obad)
+    res.cov["correspondence"]["block_order_compared"] = "the entries of the attribute block after every operation: extracted sortedb must hold, the extracted kernel-style sorted_lookup must find every stored name, and when exactly one name joined the block the new order equals the extracted insert_key"
     res.add_obligation("packing model = on-disk layout after every operation", not cbad)
+    res.add_obligation("attribute block sorted as the insertion model says after every operation", not obad)
 
     def sig(recipe, problems):
         if all("(only i_blocks of inodes owning EA inodes)" in p for p in problems) and "ea_inode" in recipe["config"]:
@@ -193,9 +243,12 @@ def run(res, replay=None):
     bad.sort(key=lambda b: 1 if sig(*b).startswith("c15:ea-") else 0)
     for recipe, problems in bad[:3]:
         res.violation("oracle", {"recipe": recipe, "problems": problems[:5]}, signature=sig(recipe, problems))
+    for recipe, c in obad[:2]:
+        res.violation("oracle", {"recipe": recipe, "block_order": c, "problems": ["the attribute block is not in (index, name length, name) order: a reader using the sorted lookup (the kernel) does not find attributes that were set"]},
+                      signature="c15:order:" + hashlib.sha256(json.dumps(recipe.get("ops", [])).encode()).hexdigest()[:12])
     for recipe, c in cbad[:1]:
         if not bad:
             res.violation("correspondence", {"recipe": recipe, "layout": c, "note": "the packing of the attribute area differs from the model; the decoded attributes still match the reference"}, has_input=False)
-    if not pr["ok"] and not bad and not cbad:
+    if not pr["ok"] and not bad and not cbad and not obad:
         res.violation("proof", {"theorem_file": "coq/theories/Properties_C15.v", "failed_at": pr["failed_at"],
                                 "forbidden": pr["forbidden"], "log_tail": pr["log_tail"][-1500:]}, has_input=False)
